@@ -395,7 +395,10 @@ def replay(ctx, data):
                                 for y in op) for op in ops) for ops in case['program'])
     threading.stack_size(16 * 1024 * 1024)
     from boltons import cacheutils
-    serial = serial_outcomes(cfg, program)
+    try:
+        serial = serial_outcomes(cfg, program)
+    except Exception as e:
+        return ['sequential execution raises %s: %r' % (type(e).__name__, e)]
     obs, s = schedules.run_schedule(make_bodies_factory(cfg, program), cacheutils.__file__, case['schedule'],
                                     reduce=case.get('reduce', True))
     obs['aborted'] = s.aborted
